@@ -36,9 +36,17 @@ THdr == IsEv("hdr") /\ Skip
 
 TReset ==
     /\ IsEv("reset")
-    /\ committed' = EmptyTree /\ txs' = <<>> /\ isOpen' = TRUE
-    /\ IF Rec[l].res = OK THEN taint' = FALSE
+    /\ committed' = EmptyTree /\ txs' = <<>> /\ isOpen' = TRUE /\ taint' = FALSE
+
+TOpened ==
+    /\ IsEv("opened")
+    /\ UNCHANGED kvvars
+    /\ IF Rec[l].res = OK THEN UNCHANGED taint
        ELSE Report("open", {OK}) /\ taint' = TRUE
+
+\* events of other layers (hook points, I/O) recorded in the same stream: stutter
+KVEvents == {"hdr", "reset", "opened", "begin", "op", "commit", "drop", "reopen", "check"}
+TOther == l <= Len(Rec) /\ Rec[l].ev \notin KVEvents /\ l' = l + 1 /\ Skip
 
 TBegin ==
     /\ IsEv("begin")
@@ -94,7 +102,7 @@ TCheck ==
     /\ IF taint \/ Rec[l].res = OK THEN Skip
        ELSE Report("check", {OK}) /\ Skip
 
-TNext == THdr \/ TReset \/ TBegin \/ TOp \/ TCommit \/ TDrop \/ TReopen \/ TCheck
+TNext == THdr \/ TReset \/ TOpened \/ TOther \/ TBegin \/ TOp \/ TCommit \/ TDrop \/ TReopen \/ TCheck
 
 TSpec == TInit /\ [][TNext]_tvars
 
